@@ -175,7 +175,9 @@ def draw_case(draw):
     if g.lists:
         lists = {"l": [draw(st.integers(-3, 5)) for _ in range(3)], "lsec": [draw(st.booleans()) for _ in range(3)],
                  "m": [[draw(st.integers(-3, 5)) for _ in range(2)] for _ in range(2)],
-                 "msec": [[draw(st.booleans()) for _ in range(2)] for _ in range(2)]}
+                 "msec": [[draw(st.booleans()) for _ in range(2)] for _ in range(2)],
+                 # the flat list as a pysnark Array (element writes in place, like a list; native twin keeps a list)
+                 "l_is_array": draw(st.booleans())}
     return {"nvars": g.nvars, "nin": g.nin, "nbool": g.nbool, "init": init, "init_secret": init_secret,
             "body": body, "a": va, "b": vb, "bitlength": 32, "lists": lists, "in_function": draw(st.integers(0, 3)) == 0,
             "names": [draw(st.sampled_from(["x%d", "x%d", "_x%d", "__x%d", "x%d_", "X%d", "acc%d", "_%d"])) % i for i in range(g.nvars)]}
@@ -399,6 +401,8 @@ def run_oblivious(case, vec, p):
     if case.get("lists"):
         L = case["lists"]
         ctx_obj.l = [rt.PrivVal(v) if s_ else v for v, s_ in zip(L["l"], L["lsec"])]
+        if L.get("l_is_array"):
+            ctx_obj.l = e.ar.Array(ctx_obj.l)
         ctx_obj.m = [[rt.PrivVal(v) if s_ else v for v, s_ in zip(r, rs)] for r, rs in zip(L["m"], L["msec"])]
     for i, v in enumerate(vec["ins"]):
         ns["a%d" % i] = rt.PrivVal(v)
@@ -423,7 +427,8 @@ def run_oblivious(case, vec, p):
     leaves = []
     objs = [getattr(ctx, vname(case, i)) for i in range(case["nvars"])]        # read as the program would: _.name
     if case.get("lists"):
-        objs += list(getattr(ctx, "l")) + [x for r in getattr(ctx, "m") for x in r]
+        lobj = getattr(ctx, "l")
+        objs += list(lobj.arr if isinstance(lobj, e.ar.Array) else lobj) + [x for r in getattr(ctx, "m") for x in r]
     for x in objs:
         t = ir.classify(e, x)
         finals.append(ir.pyval(x, t) if t in "IBF" else x)
@@ -510,6 +515,8 @@ def kinds_in(case):
     walk(case["body"], 0)
     if case.get("lists"):
         out.add("list-variables")
+        if case["lists"].get("l_is_array"):
+            out.add("array-variable")
     if case.get("in_function"):
         out.add("in-function-with-own-context")
     src = render(case, True)
